@@ -81,6 +81,10 @@ func sdProject(w *tr.Writer, sc sdScenario, files []*render.File, eps []sdEp, ne
 	lines := []string{fmt.Sprintf("Proj [blackboxes=[[%q, \"cut at the level of the project\"]]]:", key)}
 	names := []string{}
 	cuts := map[string][][]string{}
+	var extra []string
+	if len(starts) > 3 {
+		extra, starts = starts[3], starts[:3]
+	}
 	for i, st := range starts {
 		n := fmt.Sprintf("SEQ-%c", 'A'+i)
 		h := "    " + n
@@ -90,6 +94,10 @@ func sdProject(w *tr.Writer, sc sdScenario, files []*render.File, eps []sdEp, ne
 			cuts[n] = [][]string{bb}
 		}
 		lines = append(lines, h+":", "        "+st[0]+" <- "+st[1])
+		if i == 0 && extra != nil {
+			// the first diagram draws two endpoints one after the other
+			lines = append(lines, "        "+extra[0]+" <- "+extra[1])
+		}
 		names = append(names, n)
 	}
 	fs := []*render.File{{Name: files[0].Name, Lines: append(append([]string{}, files[0].Lines...), lines...)}}
@@ -129,6 +137,9 @@ func sdProject(w *tr.Writer, sc sdScenario, files []*render.File, eps []sdEp, ne
 		st := starts[i]
 		begin := tr.Ev{"t": id, "e": "begin", "scn": sc.ID, "start": st[0] + " <- " + st[1], "sapp": st[0], "sep": st[1], "eps": eps,
 			"cut": cuts[n], "pcut": [][]string{bb}, "groups": map[string]string{}, "group": "", "project": n}
+		if i == 0 && extra != nil {
+			begin["starts"] = [][]string{st, extra}
+		}
 		evs := []tr.Ev{begin}
 		switch {
 		case r.pan != "":
